@@ -6,7 +6,7 @@ PLAN = dict(
     functions_under_contract=['tracing-core/src/field.rs: impl_values! Value impls, Value for str / [u8] / &T / Box<T> / Wrapping / Empty / DisplayValue / DebugValue, ValueSet::record, FieldSet::{field,value_set}'],
     trusted_base=["Kani 0.68 / CBMC 6.11 / CaDiCaL; Kani's std build (nightly-2026-08-21), not the repo toolchain's", 'core::fmt::Formatter::pad stubbed to Ok(()) with -Z stubbing (panic-message formatting on infeasible error branches; no harness that uses it reads formatted text)', 'cfg(kani) thread_local! shim and once_cell::sync::Lazy contract stub (see overlay_additions)', 'macro harnesses: dispatch::get_default, LevelFilter::current and callsite::register replaced by contract stubs over tagged harness state (their contracts are C02 / C19 / C01)'],
     assumptions=["the text a %/? sigil produces is core::fmt's (only the routing to record_debug is checked)"],
-    not_covered=['macro forms outside the catalogue: the level-named shorthands are covered for the plain and one prefixed form per level only (their ?/% shorthand and message arms are separate arms that no harness names); tracing-attributes', 'Span::record through the macro-declared field set (C03 covers declared/undeclared)'],
+    not_covered=['macro forms outside the catalogue: the level-named event shorthands are covered for the plain, one prefixed, `?x`, `%x` and message form per level, the span shorthands for the plain and one prefixed form (the remaining arms - sigils combined with prefixes, `{ fields }, message` - are separate arms that no harness names); tracing-attributes', 'Span::record through the macro-declared field set (C03 covers declared/undeclared)'],
     kani=[dict(
         crate="tracing-core", tls_shim=True, once_cell_stub=True,
         modules=[dict(name="__verif_c10", attach="lib", files=["../common/core_prelude.rs", "../common/core_stub.rs", "values.kani.rs"])],
@@ -18,6 +18,6 @@ PLAN = dict(
     )],
     manifest=dict(technique='full-domain routing contracts for every Value impl, a bounded ValueSet::record order check on the real tracing-core, and a catalogue of real macro expansions over contract stubs of the global state (Kani)',
         text="Typed routing and ordering are decided for the data layer (tracing-core) for all values; the macro layer's evaluate-once / not-at-all, order, naming and sigil clauses are decided for a catalogue of forms through the real macros, for every filtering stage. 'Every macro form' is a catalogue, not a proof over the macro grammar, hence `other`.",
-        note='Bound: ValueSet of 4 fields. Macro forms: catalogue of 9 harnesses: 7 plain forms, 8 event! / 4 span! prefix forms, 6 shorthand positions, 10 level-named event and 10 level-named span shorthands.',
+        note='Bound: ValueSet of 4 fields. Macro forms: catalogue of 10 harnesses: 15 sigil / message arms of the level-named event shorthands, 7 plain forms, 8 event! / 4 span! prefix forms, 6 shorthand positions, 10 level-named event and 10 level-named span shorthands.',
         design_ref="DESIGN.md section 4, C10"),
 )
